@@ -620,7 +620,13 @@ def install(P, max_split=4):
     def _print(ctx, c):
         w = getattr(ctx, "world", None)
         if w is not None and hasattr(w, "printed"):
-            w.printed.append((c.key, render(ctx, deref(c.args[0]))))
+            try:
+                text = render(ctx, deref(c.args[0]))
+            except Unsupported:
+                if "eprint" not in c.key:
+                    raise
+                text = "<diagnostic text not modelled>"      # stderr diagnostics carry no obligation in any property
+            w.printed.append((c.key, text))
         return UNIT
 
     # ------------------------------------------------------------------ panics
